@@ -21,6 +21,7 @@ func init() {
 	reg("C15", "C15.R7", "E2", "an action stays busy (Hold/Collapse) only while its joining flag is true", 1, ruleBusyOnlyWhileJoining)
 	reg("C15", "C15.R8", "E6", "the joined value left in the event does not alias the reusable join buffer (same rule as C13.A)", 1, ruleActionBufferViews)
 	reg("C15", "C15.R9", "E2+E3", "a line put into the stream cannot be overwritten by the time-out event (same rule as C02.R7)", 1, ruleStreamPutFIFO)
+	reg("C15", "C15.R10", "E2+E6", "an event continues an open run only by the verdict of the continue check on its own value (no constant verdict)", 1, ruleContinuationDecidedByCheck)
 }
 
 func ruleReceiverLocalState(c *Ctx, r *Rule) {
